@@ -472,7 +472,15 @@ pub fn run_case(ctx: &mut Ctx, c: &Case) {
         return;
     };
     // a second archive for the same recipients (other symmetric key and nonce)
-    let other = drv::build(p, &k, drv::Sched::All).ok().and_then(|b| chunk_table(&k, &b.raw, &b.sks).map(|(c, hl)| (b.raw, c, hl)));
+    // (same names, sizes and recipients, OTHER file contents: a chunk of it that is accepted in place
+    // of a chunk of the first archive shows in the bytes returned)
+    let other_prog = {
+        let mut q = p.clone();
+        q.seed = p.seed ^ 0x07E4;
+        // the recipients' keys derive from the seed: keep them by keeping the originals below
+        q
+    };
+    let other = drv::build_for_keys(&other_prog, &k, p).ok().and_then(|b| chunk_table(&k, &b.raw, &pr.sks).map(|(c, hl)| (b.raw, c, hl)));
     let env = Env { pr, chunks, other };
     let all = alt_list(&env, &c.sel);
     let (si, sn) = c.seg;
